@@ -818,6 +818,71 @@ def m_closeGuarded(p):
     return False
 
 
+# -- mirror of the abstract run `chk` / safeOpen / safeClose of Props/C19.lean (prediction only) -----------------
+
+def _abs_atom(a, sig):
+    flag, links = sig
+    k = a.kind
+    if k == "pure":
+        return (sig, False)
+    if k == "io":
+        return (sig, True)
+    if k == "checkClosed":
+        return None if flag else (sig, False)
+    if k == "checkOpen":
+        return (sig, False) if flag else None
+    if k == "superOpen":
+        return None if flag else ((True, links), False)
+    if k == "superClose":
+        return ((False, links), False) if flag else None
+    if k == "tOpen":
+        return None if a.t in links else ((flag, (a.t,) + links), True)
+    if k == "tClose":
+        return ((flag, tuple(x for x in links if x != a.t)), False) if a.t in links else None
+    raise ValueError(k)
+
+
+def m_chk(K, sig, prog):
+    for st in prog:
+        if isinstance(st, Atom):
+            r = _abs_atom(st, sig)
+            if r is None:
+                return None
+            sig2, can_raise = r
+            if can_raise and not K(sig):
+                return None
+            sig = sig2
+        else:
+            all_caught = set(st.catches) >= set(KINDS)
+
+            def Kb(tau, st=st, all_caught=all_caught):
+                if not (all_caught or K(tau)):
+                    return False
+                t2 = m_chk(lambda _x: False, tau, st.handler)
+                return t2 is not None and st.exit[0] != "swallow" and K(t2)
+            sig = m_chk(Kb, sig, st.body)
+            if sig is None:
+                return None
+    return sig
+
+
+def m_good(n):
+    return lambda sig: all(t in sig[1] for t in range(n)) if sig[0] else not sig[1]
+
+
+def m_safeOpen(n, p):
+    s = m_chk(m_good(n), (False, ()), p)
+    return s is not None and m_good(n)(s)
+
+
+def m_safeClose(n, po, pc):
+    s = m_chk(m_good(n), (False, ()), po)
+    if s is None or not s[0] or not m_good(n)(s):
+        return False
+    t = m_chk(lambda _x: True, s, pc)
+    return t is not None and not t[0] and not t[1]
+
+
 # ---------------------------------------------------------------------------
 # emission
 # ---------------------------------------------------------------------------
@@ -876,6 +941,10 @@ def emit_obligations(progs: list, untranslatable: list) -> tuple[str, dict]:
         else:
             out.append(f"theorem recover_bad_{p.name} : recoverAll {g} = false := by decide +kernel")
         shape = []
+        if m_safeOpen(len(p.links), p.open):
+            shape.append(f"safeOpen {g}.nlinks {g}.openP = true")
+        if m_safeClose(len(p.links), p.open, p.close):
+            shape.append(f"safeClose {g}.nlinks {g}.openP {g}.closeP = true")
         if m_wfOpen(p.open):
             shape.append(f"wfOpen {g}.openP = true")
         if m_wfClose(p.close):
